@@ -555,7 +555,46 @@ def gen_C09(rng):
     return sc
 
 
+def contention(rng, kind=None):
+    """Several stream transfers competing for one tag semaphore: 2-3 submission
+    threads, in-memory limits of 1-2, many parts."""
+    kind = kind or rng.choice(['down', 'down', 'up'])
+    types = [('download', 1)] if kind == 'down' else [('upload', 1)]
+    sc = base(rng, types, nmax=3, tight=True, short_reads=True, maxsize=40)
+    cfg = sc['config']
+    cfg['max_submission_concurrency'] = rng.choice([2, 3])
+    cfg['max_submission_queue_size'] = rng.choice([2, 3, 5])
+    cfg['max_request_concurrency'] = rng.choice([1, 2, 3])
+    cfg['max_in_memory_download_chunks'] = rng.choice([1, 1, 2])
+    cfg['max_in_memory_upload_chunks'] = rng.choice([1, 1, 2])
+    cfg['multipart_chunksize'] = rng.randint(1, 4)
+    cfg['multipart_threshold'] = rng.randint(1, 6)
+    while len(sc['transfers']) < 2:
+        sc['transfers'].append(gen_transfer(rng, cfg, types))
+    for t in sc['transfers']:
+        t['size'] = max(t['size'], cfg['multipart_threshold'] +
+                        cfg['multipart_chunksize'] * rng.randint(2, 6))
+        for sub in t['subs']:
+            if sub.get('provide_size') is not None:
+                sub['provide_size'] = t['size']
+        if kind == 'down':
+            t['dst'] = rng.choice(['nonseekable', 'nonseekable', 'fifo'])
+            t.pop('prev', None)
+        else:
+            if t.get('src') == 'path':
+                t['src'] = rng.choice(['seekable', 'nonseekable'])
+                t['offset'] = 0
+    sc['knobs']['adjuster']['max_parts'] = 10000
+    sc['strategy'] = gen_strategy(rng, est_steps(sc['transfers'], cfg))
+    sc['max_steps'] = 60 * est_steps(sc['transfers'], cfg) + 20000
+    return sc
+
+
 def gen_C10(rng):
+    if rng.random() < 0.35:
+        sc = contention(rng)
+        sc['knobs']['latency'] = wchoice(rng, [('none', 3), ('random', 3), ('slow_first', 2)])
+        return sc
     sc = base(rng, ALL_TYPES, nmax=6, tight=True, short_reads=True, maxsize=36)
     sc['knobs']['latency'] = wchoice(rng, [('none', 3), ('random', 4), ('slow_first', 2),
                                            ('slow_last', 1)])
@@ -563,6 +602,10 @@ def gen_C10(rng):
 
 
 def gen_C11(rng):
+    if rng.random() < 0.3:
+        sc = contention(rng)
+        sc['knobs']['latency'] = wchoice(rng, [('none', 2), ('random', 3), ('slow_first', 4)])
+        return sc
     kind = rng.choice(['up', 'down', 'io'])
     if kind == 'up':
         sc = base(rng, [('upload', 1)], nmax=3, tight=True, maxsize=48)
